@@ -40,6 +40,8 @@ type c16Case struct {
 	DecoyFood  bool   `json:"decoyfood"` // a food.yaml exists in the working directory
 	EqualsForm bool   `json:"equalsform"`
 	CfgSymlink bool   `json:"cfgsymlink"` // the configuration file is a symbolic link to the real file
+	CfgPad     int    `json:"cfgpad"`     // bytes of comment lines before the first section of the configuration file
+	NoDBFalse  bool   `json:"nodbfalse"`  // --no-database=false is given: must behave as if the switch were absent
 }
 
 var c16Formats = []string{"2006/01/02", "2006-01-02", "02.01.2006", "20060102", "02/01/2006", "2006/01/02"} // index 0 = default, 5 = default given explicitly
@@ -128,6 +130,9 @@ func checkC16(c c16Case, ctx *vCtx) *vFailure {
 	write(filepath.Join(root, "empty.yaml"), "")
 	// configuration file
 	var cfg strings.Builder
+	for cfg.Len() < c.CfgPad {
+		cfg.WriteString("; hranoprovod configuration - this line is a comment and only makes the file longer ........\n")
+	}
 	cfg.WriteString("[Global]\n")
 	if c.Book.Cfg != 0 {
 		fmt.Fprintf(&cfg, "DbFileName=%s\n", bookPath(c.Book.Cfg))
@@ -211,6 +216,8 @@ func checkC16(c c16Case, ctx *vCtx) *vFailure {
 	}
 	if c.NoDatabase {
 		global = append(global, "--no-database")
+	} else if c.NoDBFalse {
+		global = append(global, []string{"--no-database=false", "--no-database=0"}[len(global)%2])
 	}
 
 	useBin := c.Channel == "default"
@@ -443,6 +450,10 @@ func genC16(t *rapid.T) c16Case {
 		DecoyFood:  rapid.Bool().Draw(t, "decoy"),
 		EqualsForm: rapid.Bool().Draw(t, "equals"),
 		CfgSymlink: rapid.IntRange(0, 3).Draw(t, "symlink") == 0,
+		NoDBFalse:  rapid.IntRange(0, 5).Draw(t, "nodbfalse") == 0,
+	}
+	if rapid.IntRange(0, 3).Draw(t, "pad") == 0 {
+		c.CfgPad = []int{3000, 4090, 5000, 20000}[rapid.IntRange(0, 3).Draw(t, "padn")]
 	}
 	if c.Channel != "none" && c.Channel != "default" {
 		c.CfgMissing = rapid.IntRange(0, 9).Draw(t, "missing") == 0
@@ -514,6 +525,16 @@ func c16EnumSpace() []c16Case {
 	}
 	for _, ch := range channels {
 		out = append(out, c16Case{Channel: ch, DecoyFood: true, CfgSymlink: true, Book: c16Src{Cfg: 3}, Fmt: c16Src{Cfg: 2}})
+		for _, pad := range []int{4000, 4200, 9000, 70000} {
+			out = append(out, c16Case{Channel: ch, DecoyFood: true, CfgPad: pad, Book: c16Src{Cfg: 3}, Log: c16Src{Cfg: 2}, Fmt: c16Src{Cfg: 2}, Depth: c16Src{Cfg: 2}, Today: c16Src{Cfg: 1}})
+		}
+	}
+	for _, src := range []c16Src{{}, {Flag: 1}, {Env: 2}, {Cfg: 3}} {
+		ch := "none"
+		if src.Cfg != 0 {
+			ch = "flag"
+		}
+		out = append(out, c16Case{Book: src, Channel: ch, NoDBFalse: true, DecoyFood: true})
 	}
 	// explicit config: existing vs missing, --no-database in every environment
 	for _, ch := range []string{"flag", "env"} {
@@ -540,7 +561,7 @@ func init() {
 func TestVerifC16Enum(t *testing.T) {
 	space := c16EnumSpace()
 	vEnum(t, "C16", "c16.enum",
-		"for each of the five settings (recipe-book path, log path, date format, resolve depth, current date) the full product {flag set/unset} x {env set/unset} x {config entry set / config file without the entry / no config file} x configuration channel {--config, HR_CONFIG, default location $HOME/.hranoprovod/config through the real binary under an unused uid}, with distinguishable values at every level; plus the documented default value given explicitly by flag/env against a configuration entry, a symlinked configuration file, explicit config existing/missing and --no-database with every other source of the book path, with and without a food.yaml in the working directory",
+		"for each of the five settings (recipe-book path, log path, date format, resolve depth, current date) the full product {flag set/unset} x {env set/unset} x {config entry set / config file without the entry / no config file} x configuration channel {--config, HR_CONFIG, default location $HOME/.hranoprovod/config through the real binary under an unused uid}, with distinguishable values at every level; plus the documented default value given explicitly by flag/env against a configuration entry, a symlinked configuration file, configuration files padded with comments beyond 4 KiB and 64 KiB, --no-database=false, explicit config existing/missing and --no-database with every other source of the book path, with and without a food.yaml in the working directory",
 		fmt.Sprintf("%d combinations", len(space)), len(space), func(i int) c16Case { return space[i] }, checkC16)
 }
 
